@@ -830,6 +830,10 @@ impl Ctx {
             if model == imp {
                 continue;
             }
+            if model == "skip" {
+                self.rep.count("spec-evaluator-skipped(large integer exponent)");
+                continue;
+            }
             // libm-dependent results: same tree dump, float values within 4 ulp
             if *tolerant {
                 if let (Some((d1, v1)), Some((d2, v2))) = (imp.rsplit_once(' '), model.rsplit_once(' ')) {
@@ -837,6 +841,10 @@ impl Ctx {
                         self.rep.count("model:libm-within-4ulp");
                         continue;
                     }
+                }
+                if close(imp, model, 4) {
+                    self.rep.count("model:libm-within-4ulp");
+                    continue;
                 }
             }
             self.rep.n_disagreements += 1;
@@ -942,6 +950,12 @@ fn do_case(cx: &mut Ctx, t: &T, src: &str, env: &Env, tag: &str) {
         cx.rep.sample(json!({"formula": src, "env": env_wire(env, &[]), "impl": ans, "reference": format!("{want_dump} {want_eval_s}")}));
     }
     cx.pending.push((req, ans, libm));
+    // the Lean reference evaluator (Spec.Formula.eval, the right-hand side of eval_refines_spec)
+    // against this harness' reference evaluator: two independent transcriptions of the semantics
+    if cx.rep.evaluations % 3 == 0 && imp.as_ref().map_or(false, |x| x.0 == want_dump) {
+        cx.rep.count("spec-evaluator-cross-check");
+        cx.pending.push((format!("c05 spec {} {}", hex(src.as_bytes()), env_wire(env, &[])), want_eval_s.clone(), libm));
+    }
     if cx.pending.len() >= 20_000 {
         cx.flush();
     }
